@@ -322,6 +322,20 @@ void cop(string *a) {
       rec("PINFO " + a[1] + " fn=" + implode(sort_array(functions(o, 0), 1), ",") + " var=" + implode(variables(o, 0), ",") + " inh=" + implode(inherit_list(o), ",") + " dump=" + n + ":" + h);
     }
     break;
+  case "xco":     // xco <id> <ob> <fn> [arg]: call_other from this object; the outcome is one record
+    {
+      mixed r;
+      e = 0;
+      o = find_object(a[2]);
+      if (!o) e = catch(o = load_object(a[2]));
+      if (o) { if (sizeof(a) > 4) e = catch(r = call_other(o, a[3], a[4])); else e = catch(r = call_other(o, a[3])); }
+      rec("XR " + a[1] + " " + (e ? "err:" + replace_string(replace_string(e, "\n", ""), " ", "_") : (stringp(r) ? r : (intp(r) ? "int:" + r : "other"))));
+    }
+    break;
+  case "xreload": // xreload <ob>: destruct the blueprint, the next call loads it again (new program)
+    o = find_object(a[1]);
+    if (o) destruct(o);
+    break;
   case "pdump":   // pdump <file>: the whole program dump, one record per line (for looking at a replay)
     o = find_object(a[1]);
     if (o) { string d, l; catch(dump_prog(o, 3, "/pdump.txt")); d = read_file("/pdump.txt"); if (d) foreach (l in explode(d, "\n")) rec("PD " + l); }
@@ -633,7 +647,7 @@ void do_op(string op) {
   case "wclone": case "wload": case "whold": case "wdump": case "walk": case "lname": case "wmove": case "wmoves": case "wdest":
     wop(a);
     break;
-  case "mk": case "put": case "cyc": case "uncyc": case "share": case "cov": case "covf": case "itv": case "drop": case "clearall": case "rb": case "many": case "use": case "memstat": case "rcall": case "dslot": case "dkids": case "pinfo": case "pdump":
+  case "mk": case "put": case "cyc": case "uncyc": case "share": case "cov": case "covf": case "itv": case "drop": case "clearall": case "rb": case "many": case "use": case "memstat": case "rcall": case "dslot": case "dkids": case "pinfo": case "pdump": case "xco": case "xreload":
     cop(a);
     break;
   case "uclone": case "uload": case "useteuid": case "uexport": case "uids": case "ucall": case "ucf": case "uvs": case "umclone":
